@@ -117,7 +117,7 @@ plan("C01", "exploration",
      "5 wrapper modes x hist_bits 0-15 x {default, static, custom-from-data, custom-from-random-histogram} x 6 level_buf sizes (and NULL for stateless level 1) x {stateless, one call, streaming "
      "with generated in/out chunk schedules} x 12 simulated cpu levels; thorough adds the 8 KiB-window and LONGER_HUFFTABLE builds. Oracle: zlib + RFC 1951 reference decoder. "
      "Non-trivial: stream with a match, >=2 blocks or split stored block.",
-     lambda tier: [S("C01", 30000), S("C01", 4000, cfg="hist8k"), S("C01", 4000, cfg="longhuff")] if tier == "quick" else [S("C01", 400000), S("C01", 60000, cfg="hist8k"), S("C01", 60000, cfg="longhuff")],
+     lambda tier: [S("C01", 30000), S("C01", 4000, cfg="hist8k"), S("C01", 4000, cfg="longhuff")] if tier == "quick" else [S("C01", 400000), S("C01", 60000, cfg="hist8k"), S("C01", 60000, cfg="longhuff"), F("C01", 8000)],
      assumptions=["zlib 1.2.13 inflate and an RFC 1951 decoder written for this framework are the independent decoders",
                   "output space is generous here (tight space is C10)", "hist_bits is generated in 0..15 as documented"])
 
@@ -125,21 +125,21 @@ plan("C02", "exploration",
      "Generated valid streams: deflate grammar programs (stored/fixed/dynamic in any order, empty blocks, random Kraft-complete codes with lengths up to 15, single-code and empty distance alphabets, "
      "16/17/18 runs crossing the table boundary, every length/distance symbol, overlap, dist 32768, final block near 2/4 KiB), zlib-encoded recipes (all levels/strategies/windowBits/memLevel/flush kinds) "
      "and ISA-L-encoded ones; wrappers raw/gzip(optional fields)/zlib x crc_flag x API x decode kernel via cpu level x hist_bits x appended garbage. Non-trivial: has a Huffman-coded match.",
-     lambda tier: [S("C02", 26000), S("C02", 4000, cfg="hist8k"), S("C02", 4000, cfg="longhuff"), S("C02", 2000, cfg="nostatic")] if tier == "quick" else [S("C02", 400000), S("C02", 60000, cfg="hist8k"), S("C02", 60000, cfg="longhuff"), S("C02", 30000, cfg="nostatic")],
+     lambda tier: [S("C02", 26000), S("C02", 4000, cfg="hist8k"), S("C02", 4000, cfg="longhuff"), S("C02", 2000, cfg="nostatic")] if tier == "quick" else [S("C02", 400000), S("C02", 60000, cfg="hist8k"), S("C02", 60000, cfg="longhuff"), S("C02", 30000, cfg="nostatic"), F("C02", 8000)],
      label_floors={"valid_streams": {"litlen-code>=13bits": 0.02, "dist=32768": 0.002, "blocks>=3": 0.05, "repeat-crosses-litlen/dist-boundary": 0.01}},
      assumptions=["streams are strictly valid: complete codes or the degenerate alphabets zlib accepts; every generated stream is first decoded by the reference decoder and by zlib, which must agree"])
 
 plan("C10", "exploration",
      "One-shot: inputs biased to incompressible/empty (0..70, 65530..65540, 131065..131075, up to 300 KiB) x level x wrapper x flush x avail_out around 0 / compressed size / bound, every value 0..bound+16 "
      "for small inputs; streaming: tiny output buffer sequences with end_of_stream; invalid parameters. Output chunks end at guard pages. Non-trivial: avail_out within 16 of the bound or compressed size, or a buffer < 8 bytes.",
-     lambda tier: [S("C10", 24000), S("C10", 3000, cfg="hist8k"), S("C10", 1500, cfg="longhuff")] if tier == "quick" else [S("C10", 300000), S("C10", 30000, cfg="hist8k"), S("C10", 20000, cfg="longhuff")],
+     lambda tier: [S("C10", 24000), S("C10", 3000, cfg="hist8k"), S("C10", 1500, cfg="longhuff")] if tier == "quick" else [S("C10", 300000), S("C10", 30000, cfg="hist8k"), S("C10", 20000, cfg="longhuff"), F("C10", 8000)],
      assumptions=["bound = len + 5*max(1,ceil(len/65535)) + (10,8) gzip / (0,8) gzip-no-hdr / (2,4) zlib / (0,4) zlib-no-hdr / 0 raw as stated by the property",
                   "either ISAL_INVALID_LEVEL or ISAL_INVALID_LEVEL_BUF is accepted for a missing/undersized level buffer"])
 
 plan("C14", "exploration",
      "Generated histories: 1-5 feed steps each followed by a NO/SYNC/FULL flush request, drained through generated output chunkings (down to 1-byte buffers), x level x wrapper x hist_bits x cpu level; "
      "segments after a flush copy content from before it. Plus sequences of one-shot raw-deflate FULL_FLUSH calls. Non-trivial: a completed flush followed by >= 64 bytes repeating pre-flush content.",
-     lambda tier: [S("C14", 70000), S("C14", 6000, cfg="hist8k")] if tier == "quick" else [S("C14", 1000000), S("C14", 100000, cfg="hist8k"), S("C14", 60000, cfg="longhuff")],
+     lambda tier: [S("C14", 70000), S("C14", 6000, cfg="hist8k")] if tier == "quick" else [S("C14", 1000000), S("C14", 100000, cfg="hist8k"), S("C14", 60000, cfg="longhuff"), F("C14", 8000)],
      assumptions=["flush-point clauses are asserted only under the property's precondition (all input consumed, output space left)"])
 
 plan("C11", "fault_enumeration",
@@ -172,7 +172,7 @@ plan("C19", "exploration",
      "Writers: generated gzip field values/optional-field subsets (extra to 65535 bytes) and zlib (info 0-15, level, dict flag/id) x output sizes around the required size, compared with an independent RFC 1952/1950 "
      "writer and parsed by zlib; readers: headers from the reference writer and from zlib (deflateSetHeader, deflateSetDictionary) under one piece / every split / byte-wise / random pieces, caller buffers NULL/exact/"
      "undersized with grow-and-resume, corrupted HCRC/FCHECK/CM; arbitrary bytes on guard-paged buffers. Non-trivial: >= 2 optional fields, split inside the header, or overflow-resume.",
-     lambda tier: [S("C19", 200000 if tier == "quick" else 2500000)],
+     lambda tier: [S("C19", 200000)] if tier == "quick" else [S("C19", 2500000), F("C19", 8000)],
      assumptions=["name and comment passed to the writer are NUL-terminated inside their buffers", "resume after overflow follows the in-tree protocol: grow the buffer keeping its contents, call again"])
 
 plan("C18", "exploration",
@@ -180,14 +180,14 @@ plan("C18", "exploration",
      "isal_update_histogram_{base,01,04} and the dispatcher) through both builders: Kraft-complete codes <= 15 bits, bit-buffer bound, stored header re-parsed by the reference decoder; level-0 compression "
      "round trips with the table (any data / data from the support) under all APIs and flush modes; set_hufftables refused mid-block. Thorough adds the LONGER_HUFFTABLE build. Non-trivial: depth-limited "
      "or tiny-support histogram, or a round trip with a match.",
-     lambda tier: [S("C18", 90000), S("C18", 8000, cfg="longhuff"), S("C18", 8000, cfg="hist8k")] if tier == "quick" else [S("C18", 1200000), S("C18", 150000, cfg="longhuff"), S("C18", 150000, cfg="hist8k")],
+     lambda tier: [S("C18", 90000), S("C18", 8000, cfg="longhuff"), S("C18", 8000, cfg="hist8k")] if tier == "quick" else [S("C18", 1200000), S("C18", 150000, cfg="longhuff"), S("C18", 150000, cfg="hist8k"), F("C18", 8000)],
      assumptions=["subset builder: only byte values with a non-zero literal count are compressed", "collected histograms are used as inputs; their exact counts are not prescribed (collectors use different match finders)"])
 
 plan("C17", "exploration",
      "Window: hist_bits w (9..15, plus 1..8 for the round trip) with repeats placed exactly at 2^w+-3, 32768+-3 and 65536+-3 x level x flush x API x cpu level; dictionaries of 1..70000 bytes with data "
      "copied from the dictionary tail, head and middle, set directly and via process_dict/reset_dict, decoded by the reference decoder, zlib and ISA-L primed with the same dictionary; wrong-state calls. "
      "Thorough adds the 8 KiB-window and LONGER_HUFFTABLE builds. Non-trivial: match distance > 2^(w-1) or a match into the dictionary.",
-     lambda tier: [S("C17", 15000), S("C17", 2000, cfg="hist8k"), S("C17", 1500, cfg="longhuff")] if tier == "quick" else [S("C17", 200000), S("C17", 30000, cfg="hist8k"), S("C17", 30000, cfg="longhuff")],
+     lambda tier: [S("C17", 15000), S("C17", 2000, cfg="hist8k"), S("C17", 1500, cfg="longhuff")] if tier == "quick" else [S("C17", 200000), S("C17", 30000, cfg="hist8k"), S("C17", 30000, cfg="longhuff"), F("C17", 8000)],
      assumptions=["dictionaries are installed at stream start", "byte equality set_dict == tail-only == process/reset is sound because both paths hash the same bytes with the same mask at total_in == 0",
                   "struct isal_dict is zeroed before isal_deflate_process_dict, as the in-tree callers do"])
 
@@ -195,7 +195,7 @@ plan("C05", "exploration",
      "Every data-plane symbol (CRC/Adler, zero-detect, EC, RAID: direct per-ISA kernels and dispatchers under 12 cpu levels) x lengths {0, 1, every vector-width remainder, around a page, random} x both guard "
      "placements; igzip one-shot and auxiliary entry points with exact-size mappings; streaming compression and decompression histories with one mapping per chunk that is unmapped the moment the call returns "
      "and relocation of unconsumed input, whose results must still be correct. Faults are converted to failures. Non-trivial: a vector tail (len not multiple of 64) or a history with >= 2 calls.",
-     lambda tier: [S("C05", 54000), S("C05", 4000, cfg="hist8k")] if tier == "quick" else [S("C05", 800000), S("C05", 60000, cfg="hist8k"), S("C05", 40000, cfg="longhuff")],
+     lambda tier: [S("C05", 54000), S("C05", 4000, cfg="hist8k")] if tier == "quick" else [S("C05", 800000), S("C05", 60000, cfg="hist8k"), S("C05", 40000, cfg="longhuff"), F("C05", 8000)],
      assumptions=["direct kernels are not called below their documented minimum length or with misaligned RAID buffers", "relocating unconsumed input between calls is legal (the codec recomputes its base from next_in - total_in)",
                   "level_buf is 16-byte aligned as any malloc'ed buffer"])
 
